@@ -173,9 +173,44 @@ class Fn:
         return b in d and a in d[b]
 
     # ---- queries ----
+    def live_blocks(self):
+        """blocks reachable from the entry when a switch on a *literal* constant only takes its matching target (e.g. the body of
+        `if cfg!(debug_assertions) { .. }` in a build without debug assertions is dead code, whatever the optimisation level)"""
+        if getattr(self, '_live', None) is not None:
+            return self._live
+        seen, work = set(), [0] if self.blocks else []
+        while work:
+            bb = work.pop()
+            if bb in seen or bb >= len(self.blocks):
+                continue
+            seen.add(bb)
+            t = self.blocks[bb]['term']
+            nxt = None
+            if t['k'] == 'switch':
+                on = t.get('on') if isinstance(t.get('on'), dict) else {}
+                c = on.get('c')
+                pl = on.get('mv') or on.get('cp')
+                if c is None and pl is not None and not pl.get('pr'):
+                    # `_n = const false; switchInt(move _n)`: a local assigned exactly once, from a literal
+                    defs = [s_ for b_ in self.blocks for s_ in b_['stmts'] if s_.get('k') == 'assign' and s_['p']['l'] == pl['l'] and not s_['p']['pr']]
+                    if len(defs) == 1 and isinstance(defs[0]['rv'].get('use'), dict):
+                        c = defs[0]['rv']['use'].get('c')
+                if isinstance(c, dict) and ('bool' in c or 'int' in c) and 'promoted' not in c:
+                    val = int(bool(c['bool'])) if 'bool' in c else int(c['int'])
+                    nxt = [t['otherwise']]
+                    for tv, tb in t['targets']:
+                        if int(tv) == val:
+                            nxt = [tb]
+            work.extend(nxt if nxt is not None else self.succs(bb, with_unwind=True))
+        self._live = seen
+        return seen
+
     def calls(self, include_cleanup=False):
+        live = self.live_blocks()
         for i, b in enumerate(self.blocks):
             if b['cleanup'] and not include_cleanup:
+                continue
+            if i not in live:
                 continue
             t = b['term']
             if t['k'] in ('call', 'tailcall'):
